@@ -317,6 +317,20 @@ Theorem C06_kernel_solution_fields :
 Proof. destruct k_soln_fields_ok as (A & B). split; [now apply forallb_forall | exact B]. Qed.
 Print Assumptions C06_kernel_solution_fields.
 
+(** every random draw in pymoo_addon.py (tiled_choice, sampling, crossover, mutation, every hill-climb step, and the helpers / sibling
+    methods they hand the generator on to) is taken from the generator the operator was handed; a function that draws binds that
+    generator exactly once, before its first draw, and uses the process-wide stream only when it was handed none; the functions the
+    model follows issue their requests in the order the correspondence expects (tables regenerated from the current source; finite,
+    checked by computation).  This is what lets the scripted generator of the correspondence stand for "all draws" in the theorems above. *)
+Theorem C06_kernel_draws_from_handed_generator :
+  (forall row, In row k_draw_sites -> draw_row_ok row = true /\ draw_has_fallback k_draw_fallbacks row = true) /\
+  (forall row, In row k_draw_fallbacks -> draw_fallback_ok row = true) /\ draw_modelled_ok k_draw_sites = true.
+Proof.
+  destruct k_draw_sites_ok as (A & B & C & D). split; [|split; [now apply forallb_forall | exact D]].
+  intros row H. split; [exact (proj1 (forallb_forall _ _) A row H) | exact (proj1 (forallb_forall _ _) C row H)].
+Qed.
+Print Assumptions C06_kernel_draws_from_handed_generator.
+
 (** *** scale covariance: weights far from 1 (2^-40 ... 2^20) change nothing.  If every violation is multiplied by a > 0 and every
     score by b > 0, both climbers visit the same states and return the same decision and pool, and the sorting optimiser selects the
     same members.  (An absolute tolerance in a comparison would break this law; the correspondence runs the model in units of the
